@@ -632,27 +632,27 @@ def rule_success(chk, funcs, names):
             if 'tol' in compact(inloop[0].value) if inloop else False:
                 chk.holds('convergence-test', nm + ':relative-change', node=inloop[0], file=RS, func=nm, detail='%s' % compact(inloop[0].value))
         else:
-            # index idiom: for i in range(niter) ... if change <= tol: break ... ; if i <op> niter + k: return 1
-            if not (isinstance(loop, ast.For) and compact(loop.iter) == 'range(niter)'):
-                chk.error('%s: unrecognised iteration idiom (neither a convergence flag nor `for i in range(niter)`)' % nm)
+            # index idiom: the loop counter tells after the loop how it was left.  Counter loops understood: `for i in range(niter)` (exhausted: i == niter - 1) and
+            # `i = c; while i < niter: ...; i += 1` with the increment last (exhausted: i == niter); a break at step k leaves i == k in both; with niter <= 0 the
+            # body never runs and i keeps its initial value.  Every path through the code after the loop that reports success must be impossible for an exhausted and
+            # for an empty loop (the tests on the counter it passed are evaluated for those values)
+            from verif_static import paths as PT
+            ivar, exhausted_off = None, None
+            if isinstance(loop, ast.For) and compact(loop.iter) == 'range(niter)' and isinstance(loop.target, ast.Name):
+                ivar, exhausted_off = loop.target.id, -1
+            elif isinstance(loop, ast.While) and isinstance(loop.test, ast.Compare):
+                wt = oriented(loop.test, lambda e_: isinstance(e_, ast.Name) and compact(e_) != 'niter')
+                if isinstance(wt.left, ast.Name) and isinstance(wt.ops[0], ast.Lt) and compact(wt.comparators[0]) == 'niter' and loop.body and \
+                        isinstance(loop.body[-1], ast.AugAssign) and isinstance(loop.body[-1].op, ast.Add) and compact(loop.body[-1].target) == wt.left.id and compact(loop.body[-1].value) == '1' and \
+                        not any(isinstance(x, ast.Continue) for x in ast.walk(loop)) and \
+                        sum(1 for x in ast.walk(loop) if isinstance(x, (ast.Assign, ast.AugAssign)) and compact(x.targets[0] if isinstance(x, ast.Assign) else x.target) == wt.left.id) == 1:
+                    ivar, exhausted_off = wt.left.id, 0
+            if ivar is None:
+                chk.error('%s: unrecognised iteration idiom (neither a convergence flag nor a counter loop over niter)' % nm)
                 continue
-            ivar = loop.target.id
             inits = [a for s in pre for a in ast.walk(s) if isinstance(a, ast.Assign) and compact(a.targets[0]) == ivar and isinstance(a.value, ast.Constant)]
-            fails = [s for s in post if isinstance(s, ast.If) and any(isinstance(r, ast.Return) and isinstance(r.value, ast.Constant) and r.value.value == 1 for r in ast.walk(s))
-                     and s.lineno < succ[0].lineno]
-            form = None
-            ftest = oriented(fails[0].test, lambda e_: compact(e_) == ivar) if len(fails) == 1 else None
-            if len(fails) == 1 and isinstance(ftest, ast.Compare) and compact(ftest.left) == ivar and len(ftest.ops) == 1:
-                rhs = ftest.comparators[0]
-                k = None
-                if compact(rhs) == 'niter':
-                    k = 0
-                elif isinstance(rhs, ast.BinOp) and compact(rhs.left) == 'niter' and isinstance(rhs.right, ast.Constant) and isinstance(rhs.op, (ast.Add, ast.Sub)):
-                    k = rhs.right.value if isinstance(rhs.op, ast.Add) else -rhs.right.value
-                if k is not None:
-                    form = (type(ftest.ops[0]), k)
-            if form is None or not inits:
-                # another idiom: decidable only when it evidently reads a value that an empty loop never sets
+            if not inits:
+                # decidable only when the code after the loop evidently reads a value that an empty loop never sets
                 tests = [s2 for s2 in post if isinstance(s2, ast.If) and s2.lineno < succ[0].lineno and any(isinstance(r, ast.Return) for r in ast.walk(s2))]
                 read = set(x.id for s2 in tests for x in ast.walk(s2.test) if isinstance(x, ast.Name))
                 set_before = set()
@@ -668,20 +668,55 @@ def rule_success(chk, funcs, names):
                                  detail=('the test between the loop and `return 0` reads %s, assigned only inside the loop: with niter <= 0 it is unset (0.0 / indeterminate) and success is reported '
                                          'for a state that was never iterated' % unset) if tests else 'nothing between the loop and `return 0` reports failure for an exhausted or empty loop')
                 else:
-                    chk.error('%s: unrecognised way of reporting failure after the loop (neither a convergence flag nor `%s <op> niter + k`): needs review' % (nm, ivar))
+                    chk.error('%s: the loop counter %s has no initial value before the loop: needs review' % (nm, ivar))
                 continue
-            op, k = form
             i0 = inits[-1].value.value
-            # exhausted loop: i == niter - 1 (Python / Cython semantics)  ->  test must be true
-            exhausted = {ast.Eq: -1 == k, ast.GtE: -1 >= k, ast.Gt: -1 > k, ast.LtE: -1 <= k, ast.Lt: -1 < k, ast.NotEq: -1 != k}.get(op, False)
-            # empty loop: i == i0 and niter <= 0  ->  i0 <op> niter + k must hold for every niter <= 0
-            empty = {ast.GtE: i0 >= k, ast.Gt: i0 > k}.get(op, False)
-            chk.decide(exhausted, 'success-implies-converged', nm + ':exhausted-loop-reports-failure', node=fails[0], file=RS, func=nm,
-                       detail_bad='after %d..niter-1 iterations without convergence `%s` is false, so the unconverged iterate is returned as success' % (i0, compact(fails[0].test)),
-                       detail_ok='%s == niter - 1 satisfies `%s`' % (ivar, compact(fails[0].test)))
-            chk.decide(empty, 'success-implies-converged', nm + ':empty-loop-reports-failure', node=fails[0], file=RS, func=nm,
-                       detail_bad='with niter <= 0 the body never runs, %s keeps its initial value %s and `%s` is false: success is reported with p = 0.0 and an unset star velocity'
-                                  % (ivar, i0, compact(fails[0].test)), detail_ok='%s = %s satisfies `%s` for every niter <= 0' % (ivar, i0, compact(fails[0].test)))
+
+            def counter_fact(x):
+                """(op, k) for a comparison `ivar <op> niter + k`, None otherwise"""
+                x = oriented(x, lambda e_: compact(e_) == ivar)
+                if not (isinstance(x, ast.Compare) and len(x.ops) == 1 and compact(x.left) == ivar):
+                    return None
+                rhs = x.comparators[0]
+                if compact(rhs) == 'niter':
+                    return type(x.ops[0]), 0
+                if isinstance(rhs, ast.BinOp) and compact(rhs.left) == 'niter' and isinstance(rhs.right, ast.Constant) and isinstance(rhs.op, (ast.Add, ast.Sub)):
+                    return type(x.ops[0]), (rhs.right.value if isinstance(rhs.op, ast.Add) else -rhs.right.value)
+                return None
+            CMP = {ast.Eq: lambda a_, b_: a_ == b_, ast.NotEq: lambda a_, b_: a_ != b_, ast.Lt: lambda a_, b_: a_ < b_, ast.LtE: lambda a_, b_: a_ <= b_,
+                   ast.Gt: lambda a_, b_: a_ > b_, ast.GtE: lambda a_, b_: a_ >= b_}
+            bad_ex = bad_em = None
+            nsucc = 0
+            unknown_test = None
+            for p_ in PT.enumerate_paths(list(post)):
+                r_ = p_[-1]
+                if not (r_.kind == 'return' and isinstance(r_.node.value, ast.Constant) and r_.node.value.value == 0):
+                    continue
+                nsucc += 1
+                facts = []
+                for x, tr_ in PT.path_facts(p_):
+                    cf = counter_fact(x)
+                    if cf is not None and cf[0] in CMP:
+                        facts.append((cf, tr_))
+                    elif ivar in [y.id for y in ast.walk(x) if isinstance(y, ast.Name)]:
+                        unknown_test = x
+                # exhausted: ivar == niter + exhausted_off (niter >= 1): the path is possible when every fact agrees
+                if all(CMP[op](exhausted_off, k) == tr_ for (op, k), tr_ in facts):
+                    bad_ex = bad_ex or p_
+                # empty: ivar == i0 and niter <= 0
+                if any(all(CMP[op](i0, nit + k) == tr_ for (op, k), tr_ in facts) for nit in list(range(0, -65, -1)) + [-10 ** 6]):
+                    bad_em = bad_em or p_
+            if unknown_test is not None:
+                chk.error('%s: unrecognised test on the loop counter after the loop (`%s`): needs review' % (nm, compact(unknown_test)))
+                continue
+            shown = lambda p_: ', '.join('%s is %s' % (compact(x), tr_) for x, tr_ in PT.path_facts(p_)) or 'no test'        # noqa: E731
+            chk.decide(nsucc > 0 and bad_ex is None, 'success-implies-converged', nm + ':exhausted-loop-reports-failure', node=succ[0], file=RS, func=nm,
+                       detail_bad='after niter iterations without convergence %s == niter%s and the path to `return 0` with %s is taken: the unconverged iterate is returned as success'
+                                  % (ivar, ' - 1' if exhausted_off else '', shown(bad_ex) if bad_ex else ''),
+                       detail_ok='%s == niter%s never reaches `return 0`' % (ivar, ' - 1' if exhausted_off else ''))
+            chk.decide(nsucc > 0 and bad_em is None, 'success-implies-converged', nm + ':empty-loop-reports-failure', node=succ[0], file=RS, func=nm,
+                       detail_bad='with niter <= 0 the body never runs, %s keeps its initial value %s and the path to `return 0` with %s is taken: success is reported with p = 0.0 and an unset star velocity'
+                                  % (ivar, i0, shown(bad_em) if bad_em else ''), detail_ok='%s = %s never reaches `return 0` for any niter <= 0' % (ivar, i0))
         # positivity floor (where the solver has one)
     vl = funcs.get('van_leer')
     if vl is not None:
